@@ -460,7 +460,7 @@ fn part_d(a: &Args, shared: &SharedReport, th: bool) {
                 if idx % a.nshards != a.shard {
                     continue;
                 }
-                if !th && k == 3 && relcode % 4 != 0 {
+                if !th && k == 3 && relcode % 2 != 0 {
                     continue;
                 }
                 let mut rel = [[false; 3]; 3];
@@ -676,10 +676,10 @@ pub fn run_c10(a: &Args, shared: &SharedReport) {
     {
         let mut r = shared.lock().unwrap();
         r.rule = "(a) every vector over {0,1,2} up to the length bound; (b) every provided Rewrite impl on all id vectors of length <=3 x all 6 plans; (c) representative() on every constructed 3-actor state vs the harness's application of the stable sorting permutation; (d) every process-symmetric model (all 512 local relations x shared flag x 2-3 processes): dfs with and without symmetry vs a plain-search oracle; peer actor systems with .symmetry(); non-trivial = the permutation is not the identity / the model has fewer orbits than states".into();
-        r.bounds = json!({"vectors": if th {"length <=6"} else {"length <=5"}, "plans": "all 6 permutations of 3 ids", "representative_states": "27 actor-state triples (ties) x 4 network contents x 3 kinds x timers x crash flags x random choices x history", "process_models": "512 relations x flag x k in {2,3} (quick: k=3 every 4th relation)", "actor_systems": "2-3 broadcasting peers, 3 network kinds"});
+        r.bounds = json!({"vectors": if th {"length <=8"} else {"length <=7"}, "plans": "all 6 permutations of 3 ids", "representative_states": "27 actor-state triples (ties) x 4 network contents x 3 kinds x timers x crash flags x random choices x history", "process_models": "512 relations x flag x k in {2,3} (quick: k=3 every 2nd relation)", "actor_systems": "2-3 broadcasting peers, 3 network kinds"});
     }
     if a.shard == 0 {
-        part_a(shared, if th { 6 } else { 5 });
+        part_a(shared, if th { 8 } else { 7 });
         part_b(shared);
     }
     part_c(a, shared, th);
